@@ -58,10 +58,23 @@ func (m *vpKeyMutex) LockKey(id string) {
 	if m.w != nil {
 		me = m.w.thread
 	}
-	if owner, ok := m.held[id]; ok {
-		// held by the other logical thread: this interleaving cannot happen here (the caller would wait)
-		verifAssume(owner == me)
-		verifAssert("C18/self-deadlock?", false, "a key lock is acquired twice by the same operation (self-deadlock)")
+	for {
+		owner, held := m.held[id]
+		if !held {
+			break
+		}
+		if owner == me {
+			verifAssert("C18/self-deadlock?", false, "a key lock is acquired twice by the same operation (self-deadlock)")
+		}
+		if me == 2 && m.w != nil {
+			// the second activity waits for the first: park; it is resumed when the key is released
+			m.w.toThread(1)
+			verifCoPark()
+			m.w.toThread(2)
+			continue
+		}
+		// the first activity would wait for a key the parked second one holds: not explored
+		verifAssume(false)
 	}
 	m.held[id] = me
 }
@@ -71,6 +84,9 @@ func (m *vpKeyMutex) UnlockKey(id string) error {
 		return fmt.Errorf("unlock of unlocked key %s", id)
 	}
 	delete(m.held, id)
+	if m.w != nil && m.w.coParked && m.w.thread == 1 {
+		m.w.resumeParked()
+	}
 	return nil
 }
 
@@ -118,6 +134,7 @@ type vpWorld struct {
 	windowAt   int // symbolic: the index of the window in which the interferer runs (0 = never)
 	winCount   int
 	thread     int
+	coParked   bool // the second activity is parked on a key lock
 
 	multiIPKeys map[string]bool // keys of pods that were bound with two or more IPs
 
@@ -133,12 +150,38 @@ func (w *vpWorld) windowPoint() {
 	if w.windowAt == w.winCount {
 		f := w.interferer
 		w.interferer = nil
-		w.thread = 2
-		verifThread(2)
-		f()
-		verifThread(1)
-		w.thread = 1
+		// the second activity runs as its own logical thread: to completion inside this window, or until it has to
+		// wait for a pod/pool key lock the first activity holds (then it parks and resumes when the lock is released)
+		w.toThread(2)
+		verifCo(f)
+		w.toThread(1)
+		w.coParked = !verifCoDone()
 	}
+}
+
+func (w *vpWorld) toThread(t int) {
+	w.thread = t
+	verifThread(t)
+}
+
+// resumeParked lets the parked second activity continue (called when a key lock is released and when the outer
+// operation has returned).
+func (w *vpWorld) resumeParked() {
+	if !w.coParked || w.thread != 1 {
+		return
+	}
+	w.toThread(2)
+	verifCoResume()
+	w.toThread(1)
+	w.coParked = !verifCoDone()
+}
+
+// finishInterference drains the second activity after the outer operation returned.
+func (w *vpWorld) finishInterference() {
+	for i := 0; w.coParked && i < 4; i++ {
+		w.resumeParked()
+	}
+	verifAssume(!w.coParked)
 }
 
 func (w *vpWorld) tick(kind, name string) error {
